@@ -27,12 +27,6 @@ WITNESSES = [
      [0, 0, 0, 1, 2, 2, 1, 0, 1, 1, 0], ["unbuffered-receiver-blocked-after-delivery"]),
     ("w_recv_delivered_reported_closed", 0, [[(1, 0)], [(0, 7), (4, 0)]],
      [0, 0, 0, 1, 1, 1, 0, 1], ["unbuffered-recv-delivered-value-reported-closed"]),
-    ("w_send_full_then_close", 1, [[(0, 5), (0, 6)], [(4, 0)]],
-     [0, 0, 0, 1, 1, 0], ["buffered-sender-blocked-on-full-misses-close"]),
-    ("w_send_closed_no_panic", 1, [[(4, 0), (0, 5)]],
-     [0, 0, 0], ["send-on-closed-returns-false-no-panic"]),
-    ("w_close_closed_no_panic", 1, [[(4, 0), (4, 0)]],
-     [0, 0, 0, 0], ["close-of-closed-no-panic"]),
     ("w_tryrecv_blocks", 0, [[(0, 7), (1, 0)], [(3, 0)]],
      [0, 1, 1, 0, 0, 0, 0, 1, 0], ["unbuffered-tryrecv-blocked-after-delivery"]),
 ]
@@ -50,7 +44,7 @@ def coq_res(r):
     k, a, b, v = r
     t = lambda x: "true" if x else "false"
     return ["(RSend %s)" % t(a), "(RRecv %s %d)" % (t(a), v), "(RTrySend %s)" % t(a),
-            "(RTryRecv %s %s %d)" % (t(a), t(b), v), "RClose"][k]
+            "(RTryRecv %s %s %d)" % (t(a), t(b), v), "RClose", "RPanic"][k]
 
 
 def case_term(r):
